@@ -9,6 +9,11 @@ from .cfg import CFG, reaching_defs
 from .core import norm
 
 
+# The method of Collection that maps an index to its cell.  It is a private method: check C19 finds it by its role from the public
+# __getitem__ (cell_lookup_method below) at the start of every run and binds the name here; the literal is the name it has on the pinned tree.
+CELL_LOOKUP = "_get_container"
+
+
 # ------------------------------------------------------------------------------------------------ small syntax helpers
 def strip_cast(e: ast.AST) -> ast.AST:
     """cast(T, x) / typing.cast(T, x) -> x (repeatedly)."""
@@ -55,31 +60,54 @@ def binds(st: Optional[ast.AST], var: str) -> bool:
 
 
 # ------------------------------------------------------------------------------------------------ `k > 0` on every path
-def _cmp_sign(c: ast.AST, var: str) -> Optional[str]:
-    """'pos' when the comparison says var > 0, 'nonpos' when it says var <= 0, 'nz' / 'z' for != 0 / == 0."""
+def _cmp_index(c: ast.AST, var: str) -> Optional[tuple[type, int]]:
+    """(op, k) when the comparison reads `var op k`, k an int constant (operands swapped if need be)."""
     if not (isinstance(c, ast.Compare) and len(c.ops) == 1):
         return None
-    l, op, r = c.left, c.ops[0], c.comparators[0]
+    l, op, r = c.left, type(c.ops[0]), c.comparators[0]
 
     def num(e):
+        if isinstance(e, ast.UnaryOp) and isinstance(e.op, ast.USub) and isinstance(e.operand, ast.Constant) and isinstance(e.operand.value, int) \
+                and not isinstance(e.operand.value, bool):
+            return -e.operand.value
         return e.value if isinstance(e, ast.Constant) and isinstance(e.value, int) and not isinstance(e.value, bool) else None
 
     if isinstance(l, ast.Name) and l.id == var and num(r) is not None:
-        k = num(r)
-    elif isinstance(r, ast.Name) and r.id == var and num(l) is not None:
-        k = num(l)
-        op = {ast.Lt: ast.Gt, ast.Gt: ast.Lt, ast.LtE: ast.GtE, ast.GtE: ast.LtE}.get(type(op), type(op))()
-    else:
+        return op, num(r)
+    if isinstance(r, ast.Name) and r.id == var and num(l) is not None:
+        return {ast.Lt: ast.Gt, ast.Gt: ast.Lt, ast.LtE: ast.GtE, ast.GtE: ast.LtE}.get(op, op), num(l)
+    return None
+
+
+_NEGATED = {ast.Gt: ast.LtE, ast.GtE: ast.Lt, ast.Lt: ast.GtE, ast.LtE: ast.Gt, ast.Eq: ast.NotEq, ast.NotEq: ast.Eq}
+
+
+def _sign_fact(c: ast.AST, var: str, truth: bool) -> Optional[str]:
+    """What the comparison c having the truth value `truth` says about the sign of var: 'pos' (var > 0), 'nonpos' (var <= 0), 'nz' / 'z'
+    (var != 0 / var == 0: the same two for a normalised, non-negative index), or None.  The two truth values are judged separately:
+    `var < 0` being false leaves var == 0 open, `var <= 0` being false does not."""
+    ck = _cmp_index(c, var)
+    if ck is None:
         return None
-    if (isinstance(op, ast.Gt) and k >= 0) or (isinstance(op, ast.GtE) and k >= 1):
+    op, k = ck
+    if not truth:
+        op = _NEGATED.get(op)
+        if op is None:
+            return None
+    if (op is ast.Gt and k >= 0) or (op is ast.GtE and k >= 1) or (op is ast.Eq and k >= 1):
         return "pos"
-    if (isinstance(op, ast.LtE) and k <= 0) or (isinstance(op, ast.Lt) and k <= 1):
+    if (op is ast.LtE and k <= 0) or (op is ast.Lt and k <= 1) or (op is ast.Eq and k < 0):
         return "nonpos"
-    if isinstance(op, ast.NotEq) and k == 0:
+    if op is ast.NotEq and k == 0:
         return "nz"
-    if isinstance(op, ast.Eq) and k == 0:
+    if op is ast.Eq and k == 0:
         return "z"
     return None
+
+
+def _cmp_sign(c: ast.AST, var: str) -> Optional[str]:
+    """what the comparison says about var when it is TRUE (see _sign_fact)"""
+    return _sign_fact(c, var, True)
 
 
 def edge_implies_positive(test: ast.expr, taken: bool, var: str) -> bool:
@@ -90,12 +118,12 @@ def edge_implies_positive(test: ast.expr, taken: bool, var: str) -> bool:
             return any(edge_implies_positive(v, True, var) for v in test.values)
         if isinstance(test, ast.UnaryOp) and isinstance(test.op, ast.Not):
             return edge_implies_positive(test.operand, False, var)
-        return _cmp_sign(test, var) in ("pos", "nz")
+        return _sign_fact(test, var, True) in ("pos", "nz")
     if isinstance(test, ast.BoolOp) and isinstance(test.op, ast.Or):
         return any(edge_implies_positive(v, False, var) for v in test.values)
     if isinstance(test, ast.UnaryOp) and isinstance(test.op, ast.Not):
         return edge_implies_positive(test.operand, True, var)
-    return _cmp_sign(test, var) in ("nonpos", "z")
+    return _sign_fact(test, var, False) in ("pos", "nz")
 
 
 def positive_on_every_path(g: CFG, target: int, var: str) -> bool:
@@ -153,7 +181,7 @@ def head_possible(g: CFG, mod, at: ast.AST, subj: ast.AST, head_attr: str = "uri
                               for s_ in (p_.body if in_body else p_.orelse) for a in ast.walk(s_))
                 if not rebound and ((isinstance(op, ast.Eq) and not in_body) or (isinstance(op, ast.NotEq) and in_body)):
                     return []
-    if isinstance(subj, ast.Call) and isinstance(subj.func, ast.Attribute) and subj.func.attr == "_get_container" and len(subj.args) == 1 and not subj.keywords:
+    if isinstance(subj, ast.Call) and isinstance(subj.func, ast.Attribute) and subj.func.attr == CELL_LOOKUP and len(subj.args) == 1 and not subj.keywords:
         k = subj.args[0]
         if isinstance(k, ast.Name):
             if positive_on_every_path(g, target, k.id):
@@ -179,7 +207,7 @@ def head_possible(g: CFG, mod, at: ast.AST, subj: ast.AST, head_attr: str = "uri
                 continue
             # a positivity fact about the index must hold at the USE (the removal), the shape of the value at its definition
             v = strip_cast(val)
-            if isinstance(v, ast.Call) and isinstance(v.func, ast.Attribute) and v.func.attr == "_get_container":
+            if isinstance(v, ast.Call) and isinstance(v.func, ast.Attribute) and v.func.attr == CELL_LOOKUP:
                 # the index name must not be re-bound between this definition and the use either: positive_on_every_path
                 # (evaluated at the use) already kills the fact at every re-binding
                 out += head_possible(g, mod, at, v, head_attr, depth + 1)
@@ -200,16 +228,19 @@ def _loop_assigns(loop: ast.AST) -> Iterator[tuple[ast.AST, str, ast.AST]]:
             yield a, a.target.id, a.value
 
 
-def raising_cycle_guard(g: CFG, mod, loop: ast.While, cursor: str) -> tuple[bool, str]:
-    """Does the walk `loop` over `cursor` RAISE when it meets a cell again?
+def raising_cycle_guard(g: CFG, mod, loop: ast.AST, cursor: str, repo=None) -> tuple[bool, str]:
+    """Does the walk `loop` (a while or a for) over `cursor` RAISE when it meets a cell again?
       * an `if X in V:` inside the loop whose body raises, X being the cursor (or the temporary the cursor is advanced from),
-      * V.add(X) / V.append(X) inside the loop,
+        V.add(X) / V.append(X) inside the loop, V not being made anew inside the loop,
+      * or the same test-and-record done by an object: a statement R.m(X), m a visit-or-raise method of a package class (visit_calls),
       * no path from an advance of the cursor to the next rdf:rest lookup of it that avoids that test."""
     temps = {cursor}
     for a, tgt, val in _loop_assigns(loop):
         if tgt != cursor and loops._rest_lookup_of(val, cursor):
             temps.add(tgt)
     guards = []
+    if repo is not None:
+        guards += visit_calls(repo, mod, g.fn, loop, temps)
     for t in ast.walk(loop):
         if not isinstance(t, ast.If):
             continue
@@ -221,7 +252,8 @@ def raising_cycle_guard(g: CFG, mod, loop: ast.While, cursor: str) -> tuple[bool
                 coll = norm(c.comparators[0])
                 fed = any(isinstance(x, ast.Call) and isinstance(x.func, ast.Attribute) and x.func.attr in ("add", "append") and norm(x.func.value) == coll
                           and x.args and isinstance(x.args[0], ast.Name) and x.args[0].id in temps for x in ast.walk(loop))
-                if fed:
+                renewed = isinstance(c.comparators[0], ast.Name) and any(binds(s, coll) for s in ast.walk(loop) if isinstance(s, ast.stmt))
+                if fed and not renewed:
                     guards.append((t, coll))
     if not guards:
         return False, "no `if <cell> in <visited>: raise` fed by every step"
@@ -249,7 +281,9 @@ def edge_establishes(test: ast.expr, taken: bool, atom: Callable[[ast.AST], Opti
             return any(edge_establishes(v, True, atom) for v in test.values)
         if not taken and isinstance(test.op, ast.Or):
             return any(edge_establishes(v, False, atom) for v in test.values)
-        return False
+        # `a or b` true / `a and b` false: one of the operands decided it, which one is not known - the fact holds if each of them
+        # establishes it (`x is None or x == rdf:nil` true, `x is not None and x != rdf:nil` false: x is None-or-nil either way)
+        return all(edge_establishes(v, taken, atom) for v in test.values)
     r = atom(test)
     return r is not None and r == taken
 
@@ -283,8 +317,9 @@ def fact_on_every_path(g: CFG, target: int, var: str, atom: Callable[[ast.AST], 
 
 def atom_nonpositive(var: str) -> Callable[[ast.AST], Optional[bool]]:
     def atom(c: ast.AST) -> Optional[bool]:
-        s = _cmp_sign(c, var)
-        return True if s in ("nonpos", "z") else (False if s in ("pos", "nz") else None)
+        if _sign_fact(c, var, True) in ("nonpos", "z"):
+            return True
+        return False if _sign_fact(c, var, False) in ("nonpos", "z") else None
     return atom
 
 
@@ -339,7 +374,7 @@ def head_certain(g: CFG, mod, at: ast.AST, subj: ast.AST, head_attr: str = "uri"
                 rebound = any(binds(a, sx) and getattr(a, "lineno", 0) < getattr(at, "lineno", 0) for s_ in side for a in ast.walk(s_) if isinstance(a, ast.stmt))
                 if not rebound and ((isinstance(op, (ast.Eq, ast.Is)) and in_body) or (isinstance(op, (ast.NotEq, ast.IsNot)) and not in_body)):
                     return []
-    if isinstance(subj, ast.Call) and isinstance(subj.func, ast.Attribute) and subj.func.attr == "_get_container" and len(subj.args) == 1 and not subj.keywords:
+    if isinstance(subj, ast.Call) and isinstance(subj.func, ast.Attribute) and subj.func.attr == CELL_LOOKUP and len(subj.args) == 1 and not subj.keywords:
         k = subj.args[0]
         if isinstance(k, ast.Constant) and k.value == 0 and not isinstance(k.value, bool):
             return []
@@ -359,7 +394,7 @@ def head_certain(g: CFG, mod, at: ast.AST, subj: ast.AST, head_attr: str = "uri"
                 out.append("%s bound by `%s`" % (subj.id, norm(g.nodes[d].ast)[:60]))
             else:
                 v = strip_cast(val)
-                if isinstance(v, ast.Call) and isinstance(v.func, ast.Attribute) and v.func.attr == "_get_container":
+                if isinstance(v, ast.Call) and isinstance(v.func, ast.Attribute) and v.func.attr == CELL_LOOKUP:
                     out += head_certain(g, mod, at, v, head_attr, depth + 1)
                 elif is_rest_value_lookup(v):
                     out.append("%s is the rdf:rest of a cell (a successor cell)" % subj.id)
@@ -375,7 +410,7 @@ def nil_possible(g: CFG, mod, at: ast.AST, subj: ast.AST, depth: int = 0) -> lis
     edge on every path since its last binding."""
     subj = strip_cast(subj)
     target = g.node_of(at, mod)
-    if isinstance(subj, ast.Call) and isinstance(subj.func, ast.Attribute) and subj.func.attr == "_get_container":
+    if isinstance(subj, ast.Call) and isinstance(subj.func, ast.Attribute) and subj.func.attr == CELL_LOOKUP:
         return []
     if isinstance(subj, ast.Call) and isinstance(subj.func, ast.Name) and subj.func.id == "BNode":
         return []
@@ -775,4 +810,351 @@ def successor_read_after_unlink(g: CFG, removal_id: int, cell: str) -> Optional[
         if binds(st, cell):
             continue
         stack.extend(m for m in g.succ[n] if g.edge_label.get((n, m), "") not in ("back", "exc"))
+    return None
+
+
+# ================================================================================================ seventh pass: walks and facts by role
+# ------------------------------------------------------------------------------------------------ rdf:rest walks, in any loop form
+def _loop_bindings(loop: ast.AST) -> list[tuple[ast.AST, str, ast.AST]]:
+    """(statement / walrus, plain name bound, bound expression) for every binding of a plain name inside the loop."""
+    return list(_loop_assigns(loop))
+
+
+def link_walks(fn: ast.AST) -> Iterator[tuple[ast.AST, str]]:
+    """(loop, cursor) for every loop of fn - `while` or `for`, whatever drives it - in whose body a plain name, the cursor, is
+    re-bound from a lookup of its OWN rdf:rest: directly (cur = value(cur, rest)) or through one temporary
+    (tmp = objects(cur, rest) ... cur = tmp[0]).  loops.link_walk_loops, with the kind of loop left open: what makes a walk a walk
+    is the def-use cycle cursor -> rdf:rest lookup -> cursor, not the keyword."""
+    from .core import own_nodes
+
+    for n in own_nodes(fn, include_nested=False):
+        if not isinstance(n, (ast.While, ast.For, ast.AsyncFor)):
+            continue
+        bnd = _loop_bindings(n)
+        cursors: set[str] = set()
+        for _a, tgt, val in bnd:
+            if loops._rest_lookup_of(val, tgt):
+                cursors.add(tgt)
+        for _a, tmp, val in bnd:
+            for _b, cur, bval in bnd:
+                if cur != tmp and tmp in loops.names(bval, ast.Load) and loops._rest_lookup_of(val, cur):
+                    cursors.add(cur)
+        for c in sorted(cursors):
+            yield n, c
+
+
+_FINITE_WRAPPERS = {"enumerate", "reversed", "zip", "list", "tuple", "sorted"}
+
+
+def finite_iteration(loop: ast.AST) -> Optional[str]:
+    """A `for` over something that ends by itself whatever the graph holds: range(..) (also inside enumerate / reversed / zip, zip
+    ending with its shortest argument), or a display.  Anything else (itertools.count(), a generator, iter(f, sentinel) ...) is not
+    taken to end."""
+    if not isinstance(loop, (ast.For, ast.AsyncFor)):
+        return None
+
+    def finite(e: ast.AST, depth: int = 0) -> bool:
+        if isinstance(e, (ast.List, ast.Tuple, ast.Set, ast.Dict, ast.Constant)):
+            return True
+        if isinstance(e, ast.Call) and isinstance(e.func, ast.Name) and not e.keywords and depth < 4:
+            if e.func.id == "range" and 1 <= len(e.args) <= 3:
+                return True
+            if e.func.id == "zip":
+                return any(finite(a, depth + 1) for a in e.args)
+            if e.func.id in _FINITE_WRAPPERS and e.args:
+                return finite(e.args[0], depth + 1)
+        return False
+
+    return "for .. in %s: the number of rounds is fixed before the walk starts" % norm(loop.iter)[:40] if finite(loop.iter) else None
+
+
+# ------------------------------------------------------------------------------------------------ a visited-set kept by an object
+def _package_class(repo, mod, name: str) -> Optional[tuple[object, ast.ClassDef]]:
+    """The class of the package that the plain name `name` denotes in module `mod`: defined at the top of mod, or bound by
+    `from <module of the package> import name [as ..]`.  (module, ClassDef) or None."""
+    for st in mod.tree.body:
+        if isinstance(st, ast.ClassDef) and st.name == name:
+            return mod, st
+    for st in ast.walk(mod.tree):
+        if isinstance(st, ast.ImportFrom) and st.module:
+            for a in st.names:
+                if (a.asname or a.name) == name:
+                    src = st.module
+                    if st.level:
+                        base = mod.name.split(".")
+                        base = base[: len(base) - st.level] if not mod.path.name == "__init__.py" else base[: len(base) - st.level + 1]
+                        src = ".".join(base + [st.module])
+                    try:
+                        m2 = repo.modules[src]
+                    except KeyError:
+                        return None
+                    for s2 in m2.tree.body:
+                        if isinstance(s2, ast.ClassDef) and s2.name == a.name:
+                            return m2, s2
+                    return None
+    return None
+
+
+_SET_SHRINKERS = {"remove", "discard", "clear", "pop", "difference_update", "intersection_update", "symmetric_difference_update", "__init__"}
+
+
+def visit_or_raise_summary(cls: ast.ClassDef, mname: str) -> Optional[tuple[int, str]]:
+    """Is method `mname` of class cls `record this value, raise if it was recorded before`?  (position of the value among the call's
+    arguments, name of the attribute that holds the record) when, p being a parameter and A an attribute of self:
+      * `if p in self.A:` (the whole test) with a body that ends in `raise`, and `self.A.add(p)` / `.append(p)`,
+      * every path to the normal exit passes that test and that add, p not being re-bound,
+      * self.A is bound in __init__ to a fresh collection (display / set() / list() ...), bound nowhere else in the class, and no
+        method of the class takes anything out of it.
+    What a caller of it knows: a normal return means the value was not in the record and now is."""
+    meths = {s.name: s for s in cls.body if isinstance(s, (ast.FunctionDef, ast.AsyncFunctionDef))}
+    f = meths.get(mname)
+    if f is None or f.decorator_list or len(f.args.args) < 2 or f.args.vararg or f.args.kwarg or cls.bases or cls.keywords:
+        return None
+    me = f.args.args[0].arg
+    params = [a.arg for a in f.args.args[1:]]
+    g = CFG(f)
+    for t in ast.walk(f):
+        if not (isinstance(t, ast.If) and isinstance(t.test, ast.Compare) and len(t.test.ops) == 1 and isinstance(t.test.ops[0], ast.In)
+                and isinstance(t.test.left, ast.Name) and t.test.left.id in params and t.body and isinstance(t.body[-1], ast.Raise)):
+            continue
+        p = t.test.left.id
+        rec = t.test.comparators[0]
+        if not (isinstance(rec, ast.Attribute) and isinstance(rec.value, ast.Name) and rec.value.id == me):
+            continue
+        attr = rec.attr
+        if any(binds(s, p) for s in ast.walk(f) if isinstance(s, ast.stmt)):
+            continue
+        adds = [s for s in ast.walk(f) if isinstance(s, ast.Expr) and isinstance(s.value, ast.Call) and isinstance(s.value.func, ast.Attribute)
+                and s.value.func.attr in ("add", "append") and norm(s.value.func.value) == norm(rec) and len(s.value.args) == 1
+                and isinstance(s.value.args[0], ast.Name) and s.value.args[0].id == p]
+        if not adds or id(t) not in g.by_ast:
+            continue
+        if not (g.must_pass_before(g.exit, {g.by_ast[id(t)]}) and g.must_pass_before(g.exit, {g.by_ast[id(a)] for a in adds if id(a) in g.by_ast})):
+            continue
+        # the record: made fresh by __init__, only grown afterwards
+        init = meths.get("__init__")
+        if init is None:
+            continue
+        fresh = False
+        sound = True
+        for mn, mf in meths.items():
+            selfname = mf.args.args[0].arg if mf.args.args else None
+            for n in ast.walk(mf):
+                if isinstance(n, ast.Attribute) and n.attr == attr and isinstance(n.ctx, (ast.Store, ast.Del)):
+                    if mn != "__init__":
+                        sound = False
+                if isinstance(n, ast.Call) and isinstance(n.func, ast.Attribute) and n.func.attr in _SET_SHRINKERS and isinstance(n.func.value, ast.Attribute) \
+                        and n.func.value.attr == attr:
+                    sound = False
+                if isinstance(n, ast.Call) and isinstance(n.func, ast.Name) and n.func.id in ("setattr", "delattr"):
+                    sound = False
+            if mn == "__init__":
+                for n in ast.walk(mf):
+                    val = None
+                    if isinstance(n, ast.Assign) and any(isinstance(x, ast.Attribute) and x.attr == attr and norm(x.value) == selfname for x in n.targets):
+                        val = n.value
+                    elif isinstance(n, ast.AnnAssign) and isinstance(n.target, ast.Attribute) and n.target.attr == attr and norm(n.target.value) == selfname:
+                        val = n.value
+                    if val is not None:
+                        fresh = isinstance(val, (ast.Set, ast.List, ast.SetComp, ast.ListComp)) or (
+                            isinstance(val, ast.Call) and isinstance(val.func, ast.Name) and val.func.id in ("set", "list"))
+        if fresh and sound:
+            return params.index(p), attr
+    return None
+
+
+def visit_calls(repo, mod, fn: ast.AST, loop: ast.AST, cells: set[str]) -> list[tuple[ast.stmt, str]]:
+    """Statements `R.m(x)` of the loop that record the cell x (a name of `cells`) in a visited-set kept by the object R and raise when
+    it is there already: R is a plain name that fn binds, outside the loop only, to `K(..)`, K a class of the package (found through
+    the imports of the module), and m is a visit-or-raise method of K (visit_or_raise_summary).  -> (statement, description)"""
+    from .core import own_nodes
+
+    out = []
+    for st in ast.walk(loop):
+        if not (isinstance(st, ast.Expr) and isinstance(st.value, ast.Call) and isinstance(st.value.func, ast.Attribute) and isinstance(st.value.func.value, ast.Name)):
+            continue
+        call = st.value
+        recv = call.func.value.id
+        if call.keywords or any(isinstance(a, ast.Starred) for a in call.args):
+            continue
+        bindings = [n for n in own_nodes(fn) if isinstance(n, ast.stmt) and binds(n, recv)]
+        if not bindings or any(any(b is x for x in ast.walk(loop)) for b in bindings):
+            continue  # a record made anew inside the loop remembers nothing
+        klass = None
+        for b in bindings:
+            v = assigned_value(b, recv)
+            v = strip_cast(v) if v is not None else None
+            k = _package_class(repo, mod, v.func.id) if (isinstance(v, ast.Call) and isinstance(v.func, ast.Name)) else None
+            if k is None or (klass is not None and k[1] is not klass[1]):
+                klass = None
+                break
+            klass = k
+        if klass is None:
+            continue
+        summ = visit_or_raise_summary(klass[1], call.func.attr)
+        if summ is None:
+            continue
+        pos, attr = summ
+        if pos < len(call.args) and isinstance(strip_cast(call.args[pos]), ast.Name) and strip_cast(call.args[pos]).id in cells:
+            out.append((st, "%s.%s(%s) [%s.%s: raises when the cell is in self.%s, else adds it]" % (recv, call.func.attr, norm(call.args[pos]), klass[1].name, call.func.attr, attr)))
+    return out
+
+
+def walk_cells(loop: ast.AST, cursor: str) -> set[str]:
+    """the cursor and the temporaries that hold its rdf:rest before the cursor is advanced to them"""
+    temps = {cursor}
+    for _a, tgt, val in _loop_assigns(loop):
+        if tgt != cursor and loops._rest_lookup_of(val, cursor):
+            temps.add(tgt)
+    return temps
+
+
+def walk_terminates(repo, mod, fn: ast.AST, loop: ast.AST, cursor: str) -> Optional[str]:
+    """Why the walk ends on a cyclic chain: a counter in the loop test / a `for` over a fixed number of rounds, a visited-set whose
+    membership test leaves the loop (written out, or kept by an object of a package class), or removal of the link followed."""
+    why = (loops._counter_bound(loop) if isinstance(loop, ast.While) else finite_iteration(loop)) or loops._visited_guard(loop, cursor, fn)
+    if why:
+        return why
+    vc = visit_calls(repo, mod, fn, loop, walk_cells(loop, cursor))
+    if vc:
+        return "visited-set kept by an object: %s" % vc[0][1]
+    return loops._removes_link(loop, cursor)
+
+
+# ------------------------------------------------------------------------------------------------ facts about a cell, as branch atoms
+def _none(e: ast.AST) -> bool:
+    return isinstance(e, ast.Constant) and e.value is None
+
+
+def atom_none_or_nil(var: str) -> Callable[[ast.AST], Optional[bool]]:
+    """the fact `var is None or var == rdf:nil` (there is no successor cell)"""
+    def atom(c: ast.AST) -> Optional[bool]:
+        if not (isinstance(c, ast.Compare) and len(c.ops) == 1):
+            return None
+        l, op, r = c.left, c.ops[0], c.comparators[0]
+        other = r if (isinstance(l, ast.Name) and l.id == var) else (l if (isinstance(r, ast.Name) and r.id == var) else None)
+        if other is None or not (_none(other) or is_nil(other)):
+            return None
+        if isinstance(op, (ast.Eq, ast.Is)):
+            return True
+        if isinstance(op, (ast.NotEq, ast.IsNot)):
+            return False
+        return None
+    return atom
+
+
+def atom_not_none(var: str) -> Callable[[ast.AST], Optional[bool]]:
+    def atom(c: ast.AST) -> Optional[bool]:
+        if not (isinstance(c, ast.Compare) and len(c.ops) == 1):
+            return None
+        l, op, r = c.left, c.ops[0], c.comparators[0]
+        other = r if (isinstance(l, ast.Name) and l.id == var) else (l if (isinstance(r, ast.Name) and r.id == var) else None)
+        if other is None or not _none(other):
+            return None
+        if isinstance(op, (ast.NotEq, ast.IsNot)):
+            return True
+        if isinstance(op, (ast.Eq, ast.Is)):
+            return False
+        return None
+    return atom
+
+
+def atom_holds_member(var: str) -> Callable[[ast.AST], Optional[bool]]:
+    """the fact `(var, rdf:first, ..) in <graph>`: the cell holds a member"""
+    def atom(c: ast.AST) -> Optional[bool]:
+        if not (isinstance(c, ast.Compare) and len(c.ops) == 1 and isinstance(c.left, ast.Tuple) and len(c.left.elts) == 3):
+            return None
+        s = strip_cast(c.left.elts[0])
+        if not (isinstance(s, ast.Name) and s.id == var and _is_first(c.left.elts[1])):
+            return None
+        if isinstance(c.ops[0], ast.In):
+            return True
+        if isinstance(c.ops[0], ast.NotIn):
+            return False
+        return None
+    return atom
+
+
+def rest_lookup_subject(e: ast.AST) -> Optional[ast.AST]:
+    """x of `<g>.value(x, RDF.rest)` (positional or keywords), else None"""
+    e = strip_cast(e)
+    if not is_rest_value_lookup(e):
+        return None
+    assert isinstance(e, ast.Call)
+    return e.args[0] if e.args else next((k.value for k in e.keywords if k.arg == "subject"), None)
+
+
+def successor_names(g: CFG, at_id: int, fn: ast.AST, cell_text: str) -> set[str]:
+    """plain names every definition of which that reaches at_id is `<g>.value(<cell>, rdf:rest)`: the successor of the cell"""
+    from .core import own_nodes
+
+    cands = set()
+    for a in own_nodes(fn):
+        if isinstance(a, (ast.Assign, ast.AnnAssign)) and a.value is not None:
+            s = rest_lookup_subject(a.value)
+            if s is not None and norm(strip_cast(s)) == cell_text:
+                for t in (a.targets if isinstance(a, ast.Assign) else [a.target]):
+                    if isinstance(t, ast.Name):
+                        cands.add(t.id)
+    out = set()
+    for nm in cands:
+        defs = _resolve(g, at_id, nm)
+        if defs and all(val is not None and rest_lookup_subject(val) is not None and norm(strip_cast(rest_lookup_subject(val))) == cell_text for _d, val in defs):
+            out.add(nm)
+    return out
+
+
+def loop_head_text(loop: ast.AST) -> str:
+    if isinstance(loop, ast.While):
+        return "while %s" % norm(loop.test)
+    return "for %s in %s" % (norm(loop.target), norm(loop.iter)[:60])  # type: ignore[attr-defined]
+
+
+def walk_reached_from(methods: dict, entry: str) -> list[str]:
+    """methods of the class (entry itself included) that hold an rdf:rest walk and that `entry` reaches through calls on self
+    (self.m(..), `for x in self`, len(self), self[..], `self += ..` - the dunder methods they stand for)"""
+    from .core import own_nodes
+
+    seen: set[str] = set()
+    stack = [entry]
+    out = []
+    while stack:
+        m = stack.pop()
+        if m in seen or m not in methods:
+            continue
+        seen.add(m)
+        f = methods[m]
+        if any(True for _ in link_walks(f)):
+            out.append(m)
+        for c in own_nodes(f):
+            if isinstance(c, ast.Call) and isinstance(c.func, ast.Attribute) and isinstance(c.func.value, ast.Name) and c.func.value.id == "self":
+                stack.append(c.func.attr)
+            elif isinstance(c, ast.Call) and isinstance(c.func, ast.Name) and c.func.id == "len" and c.args and norm(c.args[0]) == "self":
+                stack.append("__len__")
+            elif isinstance(c, (ast.For, ast.comprehension)) and norm(c.iter) == "self":
+                stack.append("__iter__")
+            elif isinstance(c, ast.Subscript) and norm(c.value) == "self":
+                stack.append({ast.Load: "__getitem__", ast.Store: "__setitem__", ast.Del: "__delitem__"}[type(c.ctx)])
+            elif isinstance(c, ast.AugAssign) and norm(c.target) == "self" and isinstance(c.op, ast.Add):
+                stack.append("__iadd__")
+    return sorted(out)
+
+
+def cell_lookup_method(methods: dict) -> Optional[str]:
+    """The private method of the list class that maps an index to its cell, by role: the method that the public __getitem__ calls on
+    self with its own index parameter (and nothing else), that returns a value, and that finds that value by an rdf:rest walk (its own
+    or one it reaches through self).  None when __getitem__ does not work that way."""
+    from .core import own_nodes
+
+    f = methods.get("__getitem__")
+    if f is None or len(f.args.args) < 2:
+        return None
+    key = f.args.args[1].arg
+    for c in sorted((c for c in own_nodes(f) if isinstance(c, ast.Call)), key=lambda c: (c.lineno, c.col_offset)):
+        if isinstance(c.func, ast.Attribute) and isinstance(c.func.value, ast.Name) and c.func.value.id == "self" and c.func.attr in methods \
+                and len(c.args) == 1 and not c.keywords and isinstance(strip_cast(c.args[0]), ast.Name) and strip_cast(c.args[0]).id == key:
+            h = methods[c.func.attr]
+            valued = any(isinstance(r, ast.Return) and r.value is not None and not _none(r.value) for r in own_nodes(h))
+            if valued and walk_reached_from(methods, c.func.attr):
+                return c.func.attr
     return None
